@@ -339,6 +339,11 @@ func ext۰reflect۰Append(fr *frame, args []value) value {
 
 func ext۰reflect۰Value۰SetMapIndex(fr *frame, args []value) value {
 	// Signature: func (v reflect.Value, key, elem reflect.Value)
+	for _, a := range args[:2] {
+		if rt, valid := a.(structure)[0].(rtype); !valid || rt.t == nil {
+			panic(targetPanic{iface{t: errorType, v: "reflect: call of reflect.Value.SetMapIndex on zero Value"}})
+		}
+	}
 	m, ok := rV2V(args[0]).(*omap)
 	if !ok || m == nil {
 		panic(targetPanic{iface{t: errorType, v: "assignment to entry in nil map"}})
